@@ -104,10 +104,11 @@ func (m *Manager) getEnabledOrPendingKeyVersion(ctx context.Context, parent stri
 				version = v
 			}
 		}
-		if len(vers.GetCryptoKeyVersions()) < keyPageSize {
+		// Only an empty next-page token ends the listing (pages may be short, empty, or exactly full).
+		pageToken = vers.GetNextPageToken()
+		if pageToken == "" {
 			break
 		}
-		pageToken = vers.GetNextPageToken()
 	}
 	if version == nil {
 		return nil, ErrNoKeyVersions
